@@ -25,6 +25,7 @@ import LfsModel.CredCache
 import LfsModel.Gen
 import LfsModel.GenApi
 import LfsModel.ApiReq
+import LfsModel.UrlEscape
 import LfsModel.Checkout
 import LfsModel.LogScan
 import LfsModel.Prune
@@ -492,6 +493,8 @@ def c18 : List String → String
   | ["lockverify", ref, cur, lim] => (match strOfHex ref, strOfHex cur, lim.toInt? with
      | some r, some c, some l => Api.render (ApiReq.encLockVerify r c l) | _, _, _ => "bad-op")
   | ["verify", o] => (match parseObj o with | some o => Api.render (ApiReq.encVerify o) | none => "bad-op")
+  | ["unlockurl", id] => (match unhex id with
+     | some b => hex (UrlEsc.unlockSuffix b) | none => "bad-op")
   | ["adapter", avail, answers] =>
     -- names are plain tokens here (basic, tus); `-` = an answer without a `transfer` member
     let av := avail.splitOn ","
